@@ -78,12 +78,15 @@ def touches(fn):
     return r
 
 
+INLINE_DEPTH1 = [False]
 ALWAYS_INLINE = ('PrecisionManager', 'workprec', 'workdps', 'extraprec', 'extradps', '_set_prec', '_set_dps', 'f_wrapped', '<lambda>')
 
 
 def inline_policy(fn, depth):
     qn = getattr(fn, '__qualname__', '')
-    if depth <= 1:
+    if depth <= 0:
+        return True
+    if depth == 1 and INLINE_DEPTH1[0]:
         return True
     if any(k in qn for k in ALWAYS_INLINE):
         return depth < 12
@@ -153,6 +156,8 @@ def restore(p):
         slots = [((id(ctx._prec), ('item', 0)), P0, '_prec[0]'), ((id(ctx), '_dps'), D0, '_dps')]
     fn = entry_callable(ctx, name)
     mode = p.get('mode', 'call')
+    # the generic wrapper f_wrapped (and the two harness drivers) are shells: their direct callee is the real entry point
+    INLINE_DEPTH1[0] = getattr(getattr(fn, '__func__', fn), '__name__', '') == 'f_wrapped' or mode != 'call'
     if mode == 'call':
         outs = ob.run(fn, [Unknown('star')], {'__unknown_kwargs__': Unknown('kw')}, heap=heap)
     elif mode == 'with':
@@ -165,6 +170,7 @@ def restore(p):
     else:
         raise Unsupported(mode)
     exits = dict(normal=0, raising=0)
+    last_state = [None]
 
     def slot_goals(st):
         goals = []
@@ -179,6 +185,7 @@ def restore(p):
                 goals.append(zt(cur) == zt(want))
             else:
                 goals.append(False)
+        last_state[0] = st
         return [z3.And([g if not isinstance(g, bool) else z3.BoolVal(g) for g in goals])]
 
     def good(val, st):
